@@ -10,24 +10,23 @@
 (* laws allow it to hold afterwards.  The Go driver runs the real          *)
 (* testscript.RunT twice on each emitted script.                           *)
 (*                                                                         *)
-(* Slot domain: (src, cmp) pairs from Kinds ("full" = all 12, "core" = 6), *)
-(* actual contents Cs (Cs3 for the third slot), golden = an entry holding  *)
-(* Content[g], g in ArchG, or a run-time file holding the actual content   *)
-(* (match) or 'old\n' (mismatch).                                          *)
+(* Slot domain: (src, cmp) pairs chosen by KindMode ("full" = all 12,      *)
+(* "core" = 6, "mini" = 3), actual contents Content[c], c in Cs, golden =  *)
+(* an entry holding Content[g], g in ArchG, or a run-time file holding the *)
+(* actual content (match) or 'old\n' (mismatch).                           *)
 (***************************************************************************)
 EXTENDS UpdateScripts, Json, FiniteSets
 
-CONSTANTS MaxSlots, KindMode, Cs, Cs3, ArchG, ByOpts, Emit
+CONSTANTS MaxSlots, KindMode, Cs, ArchG, ByOpts, Emit
 
 FullKinds == {<<s, c>> : s \in {"out", "err", "file", "ain"}, c \in {"cmp", "neg", "env"}}
 CoreKinds == {<<"out", "cmp">>, <<"err", "cmp">>, <<"file", "cmp">>, <<"ain", "cmp">>, <<"out", "neg">>, <<"file", "env">>}
-Core3     == {<<"out", "cmp">>, <<"file", "cmp">>, <<"err", "neg">>, <<"out", "env">>}
-KindsAt(k) == IF k >= 3 THEN Core3 ELSE IF KindMode = "full" THEN FullKinds ELSE CoreKinds
-CsAt(k)    == IF k >= 3 THEN Cs3 ELSE Cs
+MiniKinds == {<<"out", "cmp">>, <<"err", "neg">>, <<"file", "env">>}
+Kinds     == CASE KindMode = "full" -> FullKinds [] KindMode = "core" -> CoreKinds [] KindMode = "mini" -> MiniKinds
 
 GoldChoices(c) == {[gold |-> "arch", g |-> i] : i \in ArchG} \cup {[gold |-> "run", g |-> c], [gold |-> "run", g |-> OldIdx]}
-SlotsFor(k, c) == {[src |-> kd[1], cmp |-> kd[2], c |-> c, gold |-> gc.gold, g |-> gc.g] : kd \in KindsAt(k), gc \in GoldChoices(c)}
-SlotDomain(k)  == {s \in UNION {SlotsFor(k, c) : c \in CsAt(k)} : SlotOK(s)}
+SlotsFor(c) == {[src |-> kd[1], cmp |-> kd[2], c |-> c, gold |-> gc.gold, g |-> gc.g] : kd \in Kinds, gc \in GoldChoices(c)}
+SlotDomain  == {s \in UNION {SlotsFor(c) : c \in Cs} : SlotOK(s)}
 
 VARIABLES by, slots, o
 vars == <<by, slots, o>>
@@ -39,11 +38,14 @@ Nontrivial(sl) == UpdatedSlots(sl) # {} \/ FailingSlots(sl) # {}
 
 EntryCase(sl, oo, i) ==
   LET f   == oo.arch.files[i]
-      ks  == {k \in UpdatedSlots(sl) : GName[k] = f.name} IN
+      ks  == {k \in UpdatedSlots(sl) : GName[k] = f.name}
+      c   == Content[sl[CHOOSE k \in ks : TRUE].c] IN
   [name   |-> f.name, old |-> f.data,
-   update |-> ks # {},                                                            \* the laws allow (and, on a passing run, demand) a new content
-   want   |-> IF ks # {} /\ CanHold(Content[sl[CHOOSE k \in ks : TRUE].c])
-                THEN WantData(Content[sl[CHOOSE k \in ks : TRUE].c]) ELSE f.data]
+   update |-> ks # {},                                              \* a failing cmp names this entry: the laws allow (on a passing run: demand) new data
+   want   |-> IF ks # {} /\ CanHold(c) THEN WantData(c) ELSE f.data,
+   \* a content that cannot be quoted as it is: the statement cannot be met; besides leaving the entry alone an
+   \* implementation might store the content with the final newline added (tolerated, not predicted)
+   alt    |-> IF ks # {} /\ ~CanHold(c) THEN Quote(FixNL(c)) ELSE f.data]
 
 Case(b, sl, oo) ==
   [by       |-> b,
@@ -70,7 +72,7 @@ Init == /\ by \in ByOpts
         /\ EmitTable
         /\ EmitCase(by, slots, o)
 Next == /\ Len(slots) < MaxSlots
-        /\ \E s \in SlotDomain(Len(slots) + 1) :
+        /\ \E s \in SlotDomain :
              /\ slots' = Append(slots, s)
              /\ by' = by
              /\ o' = Outcome(by, slots')
